@@ -11,7 +11,7 @@ use crate::engine::*;
 use crate::entries::*;
 use crate::{vensure, vfail};
 
-pub const RULE: &str = "every engine feeds the same entry functions (udp_request, udp_response, http_request, http_path, http_response, ws_in text/binary, ws_out, peer_client, access_list_file, http_parse_request). (mutations) proptest builds a valid message for an entry and applies structure-aware mutations: truncation at any offset, extension, bit flips, field extremes spliced in, '=' / '&' / '%' in odd places, non-UTF-8 bytes, over-long identifiers, duplicated segments, JSON/bencode nesting; (random) raw random bytes up to the receive-buffer sizes; (nesting) deeply nested JSON / bencode (depth 10 .. 30000) run in child processes on a thread with the 2 MiB stack a worker thread has, so a stack overflow is seen as a killed child instead of killing the checker; (handlers) field extremes at storage level (numwant i32::MIN..MAX, left negative/usize::MAX, port extremes, max_response_peers/max_peers/max_offers in {0,1}, 0 and 10000 offers, scrapes of 0 and 10000 hashes); (corpus) committed inputs incl. every crash libFuzzer ever found; (fuzz) libFuzzer campaigns on the same entries, run by bin/check. Oracle: no panic / abort / overflow / out-of-bounds (the build has overflow checks and debug assertions on), bytes allocated by the call <= 128 x input length + 64 KiB (counting global allocator, per thread), rejected input yields an error value. non-trivial = the input is a mutation of a valid message or is accepted by the parser; distinct = distinct input bytes";
+pub const RULE: &str = "every engine feeds the same entry functions (udp_request, udp_response, http_request, http_path, http_response, ws_in text/binary, ws_out, peer_client, access_list_file, http_parse_request). (mutations) proptest builds a valid message for an entry and applies structure-aware mutations: truncation at any offset, extension, bit flips, field extremes spliced in, '=' / '&' / '%' in odd places, non-UTF-8 bytes, over-long identifiers, duplicated segments, JSON/bencode nesting; (random) raw random bytes up to the receive-buffer sizes; (nesting) deeply nested JSON / bencode (depth 10 .. 30000; plain, and behind lexical decoys - strings ending in an escaped backslash, escaped quotes, brackets inside strings, \\u escapes, bencode strings made of structure letters - in array, object, alternating and whitespace-separated shapes) run in child processes on a thread with the 2 MiB stack a worker thread has, so a stack overflow is seen as a killed child instead of killing the checker; (handlers) field extremes at storage level (numwant i32::MIN..MAX, left negative/usize::MAX, port extremes, max_response_peers/max_peers/max_offers in {0,1}, 0 and 10000 offers, scrapes of 0 and 10000 hashes); (corpus) committed inputs incl. every crash libFuzzer ever found; (fuzz) libFuzzer campaigns on the same entries, run by bin/check. Oracle: no panic / abort / overflow / out-of-bounds (the build has overflow checks and debug assertions on), bytes allocated by the call <= 128 x input length + 64 KiB (counting global allocator, per thread), rejected input yields an error value. non-trivial = the input is a mutation of a valid message or is accepted by the parser; distinct = distinct input bytes";
 
 #[derive(Debug, Clone, Serialize, Deserialize)]
 pub enum Mut {
@@ -286,10 +286,83 @@ pub struct NestCase {
     /// 0 "[", 1 {"a":, 2 bencode "l", 3 bencode "d1:a", 4 JSON inside an announce's unknown field, 5 inside offers
     pub shape: u8,
     pub depth: u32,
+    /// lexical decoy placed before the nested part (0 = none): content that a hand-written
+    /// scanner in front of the recursive parser could mis-read - strings ending in an escaped
+    /// backslash, escaped quotes, brackets inside strings, \u escapes, bencode strings made of
+    /// structure letters, odd integers
+    #[serde(default)]
+    pub decoy: u8,
 }
+
+pub const JSON_DECOYS: [&str; 10] = [
+    "",
+    r#""k":"C:\\","#,
+    r#""k":"\"","#,
+    r#""k":"\\\"","#,
+    r#""k":"]]]]]]]]}}}}}}}}","#,
+    r#""k":"[[[[[[[[{{{{{{{{","#,
+    r#""k\"":1,"#,
+    r#""k":"\u005c","#,
+    r#""k":"\u0022\\","#,
+    r#""k":"\\","j":"\\\\","#,
+];
+
+pub const BENCODE_DECOYS: [&str; 7] = ["", "1:a5:lllll", "1:a5:eeeee", "1:a5:ddddd", "1:ai-1e", "1:a0:", "1:a3:i1e"];
 
 pub fn nest_input(c: &NestCase) -> Vec<u8> {
     let d = c.depth as usize;
+    if c.decoy != 0 {
+        // decoys only make sense inside an enclosing object / dictionary
+        return match c.shape % 8 {
+            2 | 3 => {
+                let mut v = b"d".to_vec();
+                v.extend(BENCODE_DECOYS[c.decoy as usize % BENCODE_DECOYS.len()].as_bytes());
+                v.extend(b"1:b");
+                if c.shape % 8 == 2 {
+                    v.extend(std::iter::repeat(b'l').take(d));
+                    v.extend(std::iter::repeat(b'e').take(d));
+                } else {
+                    for _ in 0..d {
+                        v.extend(b"d1:a");
+                    }
+                    v.extend(b"i1e");
+                    v.extend(std::iter::repeat(b'e').take(d));
+                }
+                v.extend(b"e");
+                v
+            }
+            s => {
+                let mut v = br#"{"action":"announce","info_hash":"aaaaaaaaaaaaaaaaaaaa","peer_id":"bbbbbbbbbbbbbbbbbbbb","left":1,"#.to_vec();
+                v.extend(JSON_DECOYS[c.decoy as usize % JSON_DECOYS.len()].as_bytes());
+                v.extend(if s == 5 { &br#""offers":"#[..] } else { &br#""x":"#[..] });
+                match s {
+                    1 | 6 => {
+                        for _ in 0..d {
+                            v.extend(b"[{\"a\":");
+                        }
+                        v.extend(b"1");
+                        for _ in 0..d {
+                            v.extend(b"}]");
+                        }
+                    }
+                    7 => {
+                        for _ in 0..d {
+                            v.extend(b"[ ");
+                        }
+                        for _ in 0..d {
+                            v.extend(b"\n]");
+                        }
+                    }
+                    _ => {
+                        v.extend(std::iter::repeat(b'[').take(d));
+                        v.extend(std::iter::repeat(b']').take(d));
+                    }
+                }
+                v.extend(b"}");
+                v
+            }
+        };
+    }
     match c.shape % 6 {
         0 => [vec![b'['; d], vec![b']'; d]].concat(),
         1 => {
@@ -417,10 +490,33 @@ fn nest_cases(tier: Tier) -> Vec<NestCase> {
     for d in depths {
         for (entry, shapes) in [("ws_in_text", vec![0u8, 1, 4, 5]), ("ws_in_binary", vec![0, 1, 4, 5]), ("ws_out", vec![0, 1, 4]), ("http_response", vec![2, 3])] {
             for shape in shapes {
-                let c = NestCase { entry: entry.to_string(), shape, depth: d };
+                let c = NestCase { entry: entry.to_string(), shape, depth: d, decoy: 0 };
                 // stay within the receive-buffer sizes: 64 KiB WebSocket message
                 if nest_input(&c).len() <= 64 * 1024 {
                     v.push(c);
+                }
+            }
+        }
+    }
+    // lexical decoys in front of the nesting: every decoy at a shallow, a boundary and the deepest
+    // depth that fits a message
+    for d in tier.pick(vec![40u32, 3000, 30000], vec![33, 40, 129, 1000, 3000, 16000, 30000]) {
+        for (entry, shapes, decoys) in [
+            ("ws_in_text", vec![4u8, 5, 6, 7], JSON_DECOYS.len()),
+            ("ws_in_binary", vec![4, 6], JSON_DECOYS.len()),
+            ("ws_out", vec![4, 7], JSON_DECOYS.len()),
+            ("http_response", vec![2, 3], BENCODE_DECOYS.len()),
+        ] {
+            for shape in shapes {
+                for decoy in 1..decoys as u8 {
+                    let mut c = NestCase { entry: entry.to_string(), shape, depth: d, decoy };
+                    // shapes with longer units: keep the message within 64 KiB
+                    while nest_input(&c).len() > 64 * 1024 && c.depth > 40 {
+                        c.depth = c.depth * 3 / 4;
+                    }
+                    if nest_input(&c).len() <= 64 * 1024 {
+                        v.push(c);
+                    }
                 }
             }
         }
@@ -498,8 +594,11 @@ pub fn e2e_child_main(args: &[String]) -> i32 {
             let mut inputs = e2e_inputs(&["ws_in_text", "ws_in_binary"], c.seed, c.inputs);
             // fixed worst cases: deep nesting within the 64 KiB message limit, over-size message
             inputs.push([vec![b'['; 30_000], vec![b']'; 30_000]].concat());
-            inputs.push(nest_input(&NestCase { entry: String::new(), shape: 1, depth: 10_000 }));
-            inputs.push(nest_input(&NestCase { entry: String::new(), shape: 5, depth: 20_000 }));
+            inputs.push(nest_input(&NestCase { entry: String::new(), shape: 1, depth: 10_000, decoy: 0 }));
+            inputs.push(nest_input(&NestCase { entry: String::new(), shape: 5, depth: 20_000, decoy: 0 }));
+            for decoy in 1..JSON_DECOYS.len() as u8 {
+                inputs.push(nest_input(&NestCase { entry: String::new(), shape: 4, depth: 30_000, decoy }));
+            }
             inputs.push(vec![b'a'; 70_000]);
             for (i, data) in inputs.iter().enumerate() {
                 let mut b = match WsClient::connect("127.0.0.2".parse().unwrap(), to) {
